@@ -1,5 +1,5 @@
 #!/usr/bin/env python3
-"""harvest.py [jobs]  - builds the replay corpus: for every seeded breaking change (seeded/C*/meta.json with detected_by),
+"""harvest.py [jobs] [id-substring]  - builds the replay corpus: for every seeded breaking change (seeded/C*/meta.json with detected_by),
 apply it to a scratch copy, run the detecting quick check(s), and keep the shrunk failing case of each reported violation as
 regressions/<Cxx>/S-<seeded id>[-n].json - provided the same case passes on the unchanged /repo (checked by replay) and the
 file is small.  The corpus is replayed at the start of every run (seconds), so inputs that once exposed a realistic defect are
@@ -54,6 +54,8 @@ def one(mp):
 
 
 mps = sorted(glob.glob(os.path.join(ROOT, "seeded", "C*", "meta.json")))
+if len(sys.argv) > 2:  # only the seeded changes whose id contains the given substring (e.g. -r5)
+    mps = [m for m in mps if sys.argv[2] in os.path.basename(os.path.dirname(m))]
 os.makedirs("/tmp/hv", exist_ok=True)
 with ThreadPoolExecutor(jobs) as ex:
     for sid, st, kept in ex.map(one, mps):
